@@ -1,4 +1,6 @@
 import OH.Proofs.EvalCommentsProvLone
+import OH.Proofs.EvalCommentsProvIter
+import OH.Proofs.NormalizeEval
 /-
 C17, EXPRESSION LEVEL (part 3 of 3: the statements).
 
@@ -22,7 +24,9 @@ list of every rule is strictly sorted (hence duplicate-free), which is what the 
                       `scheduleAt_comments_const`, `daySchedule_comments_const` (all contributing rules
                       carry the same comments); `scheduleAt_isolated_period` (forward) and
                       `scheduleAt_single_contributor_comments` (backward) for ANY expression;
-                      `daySchedule_isolated_period` (the iteration keeps an isolated open/unknown range)
+                      `daySchedule_isolated_period`, `daySchedule_single_contributor_comments` (the
+                      iteration reports an isolated open/unknown range exactly as stored)
+  §4  non-vacuity     a concrete two-rule expression meeting every hypothesis (`Demo`)
 -/
 namespace OH.Proofs.EvalCommentsProv
 open OH.Model OH.Model.Cal OH.Model.Schedule OH.Spec.Schedule OH.Proofs.Schedule OH.Props.C14
@@ -39,6 +43,14 @@ theorem contributes_applies {ctx : Ctx} {r : Rule} {d : Day} (h : Contributes ct
     AppliesOn ctx r d := by
   obtain ⟨s, hs, _⟩ := h
   exact (ruleScheduleAt_some ctx r d hs).1
+
+/-- the hypothesis `SortedComments` holds for every expression whose comment lists were built by
+`UniqueSortedVec::from` (the parser) -/
+theorem sortedComments_of_fromVec (e : Expr)
+    (h : ∀ r ∈ e, ∃ v : List String, r.comments = OH.Model.SortedVec.fromVec v) : SortedComments e := by
+  intro r hr
+  obtain ⟨v, hv⟩ := h r hr
+  rw [hv]; exact OH.Props.C20.fromVec_sorted v
 
 /-- what C20 proves about `UniqueSortedVec::union`, in the form C14 wants -/
 theorem sortedLaws : UnionLaws (fun c : List String => Sorted c) :=
@@ -398,5 +410,131 @@ theorem scheduleAt_range_has_contributor (ctx : Ctx) (e : Expr) (d : Day) {s : S
   have := this.2 u hu
   unfold Apart at this
   omega
+
+/-! ### the same two statements for the iterated day -/
+
+theorem daySchedule_eq_iter {ctx : Ctx} {e : Expr} {d : Day} {s : Schedule} {l : List TimeRange}
+    (hs : scheduleAt ctx e d = .ok s) (h : daySchedule ctx e d = .ok l) : l = iter s := by
+  unfold daySchedule at h
+  rw [hs] at h
+  dsimp only at h
+  split at h
+  · cases h
+  · cases h; rfl
+
+/-- a lone open or unknown range of the schedule of the day is reported by the iteration exactly as
+it is, and every reported range that overlaps it is that very range -/
+theorem daySchedule_keeps_lone {ctx : Ctx} {e : Expr} {d : Day} {s : Schedule} {l : List TimeRange}
+    (hs : scheduleAt ctx e d = .ok s) (h : daySchedule ctx e d = .ok l)
+    {t : TimeRange} (ht : t ∈ s) (hl : Lone t s) (hk : t.kind ≠ Kind.closed) :
+    t ∈ l ∧ ∀ v ∈ l, v.s < t.e → t.s < v.e → v = t := by
+  obtain ⟨hw, hwi⟩ := OH.Proofs.NormalizeEval.scheduleAt_wf ctx e d s hs
+  have hne := wf_nonempty s hw t ht
+  have hlt : t.s < 1440 := by have := hwi t ht; omega
+  have e := daySchedule_eq_iter hs h
+  subst e
+  have hm := iter_keeps_lone s hw t ht hl hk hlt
+  refine ⟨hm, fun v hv h1 h2 => ?_⟩
+  apply Classical.byContradiction
+  intro hne'
+  rcases wf_disjoint (iter s) (iter_wf s hw) v t hv hm hne' with h3 | h3 <;> omega
+
+/-- (4) FORWARD, iterated day.  As `scheduleAt_isolated_period`, for an open or unknown period `t`
+that is still in the schedule of the day (no later rule replaced the whole day): the iteration reports
+`t` itself, with exactly the comments of `r`, and every reported range overlapping `t` is `t`. -/
+theorem daySchedule_isolated_period (ctx : Ctx) (pre post : List Rule) (r : Rule) (d : Day)
+    (hc : Sorted r.comments) {sr s : Schedule} {l : List TimeRange} {t : TimeRange}
+    (hr : ruleScheduleAt ctx r d = .ok (some sr)) (ht : t ∈ sr) (hk : t.kind ≠ Kind.closed)
+    (hother : ∀ r', r' ∈ pre ∨ r' ∈ post → ∀ s', ruleScheduleAt ctx r' d = .ok (some s') →
+      ∀ u ∈ s', Apart t u)
+    (hs : scheduleAt ctx (pre ++ r :: post) d = .ok s) (hts : t ∈ s)
+    (h : daySchedule ctx (pre ++ r :: post) d = .ok l) :
+    t ∈ l ∧ t.comments = r.comments ∧ ∀ v ∈ l, v.s < t.e → t.s < v.e → v = t := by
+  obtain ⟨_, _, lone⟩ := scheduleAt_lone ctx pre post r d hr ht hother hs
+  obtain ⟨h1, h2⟩ := daySchedule_keeps_lone hs h hts lone hk
+  exact ⟨h1, (ruleScheduleAt_some ctx r d hr).2.2.2.2 hc t ht, h2⟩
+
+/-- (4) BACKWARD, iterated day — the clause of C17 as stated.  `u` is an open or unknown range of the
+schedule of day `d`, and `r` is the only rule (by position) whose contribution on that day has a
+range touching or overlapping `u`.  Then the iteration reports `u` itself, it carries exactly the
+comments of `r`, and every reported range overlapping `u` is `u`. -/
+theorem daySchedule_single_contributor_comments (ctx : Ctx) (pre post : List Rule) (r : Rule) (d : Day)
+    (hc : Sorted r.comments) {sr s : Schedule} {l : List TimeRange} {u : TimeRange}
+    (hr : ruleScheduleAt ctx r d = .ok (some sr))
+    (hother : ∀ r', r' ∈ pre ∨ r' ∈ post → ∀ s', ruleScheduleAt ctx r' d = .ok (some s') →
+      ∀ x ∈ s', Apart u x)
+    (hs : scheduleAt ctx (pre ++ r :: post) d = .ok s) (hu : u ∈ s) (hk : u.kind ≠ Kind.closed)
+    (h : daySchedule ctx (pre ++ r :: post) d = .ok l) :
+    u ∈ l ∧ u.comments = r.comments ∧ ∀ v ∈ l, v.s < u.e → u.s < v.e → v = u := by
+  obtain ⟨hm, hcm, _⟩ := scheduleAt_single_contributor_comments ctx pre post r d hc hr hother hs hu
+  exact daySchedule_isolated_period ctx pre post r d hc hr hm hk hother hs hu h |>.imp_right
+    (fun h' => ⟨hcm, h'.2⟩)
+
+/-! ## §4 non-vacuity: a concrete expression meeting every hypothesis
+
+`08:00-12:00 open "a" "b"; additional 14:00-25:00 unknown "c"` on an ordinary day: the second rule also
+contributes 00:00-01:00 (continued from the day before); the open period of the first rule is touched
+by nothing. -/
+
+namespace Demo
+
+def isOkSome (x : M (Option Schedule)) (s : Schedule) : Bool :=
+  match x with | .ok (some s') => decide (s' = s) | _ => false
+
+theorem of_isOkSome {x : M (Option Schedule)} {s : Schedule} (h : isOkSome x s = true) :
+    x = .ok (some s) := by
+  unfold isOkSome at h
+  split at h
+  · rw [of_decide_eq_true h]
+  · cases h
+
+def isOk (x : M Schedule) (s : Schedule) : Bool :=
+  match x with | .ok s' => decide (s' = s) | _ => false
+
+theorem of_isOk {x : M Schedule} {s : Schedule} (h : isOk x s = true) : x = .ok s := by
+  unfold isOk at h
+  split at h
+  · rw [of_decide_eq_true h]
+  · cases h
+
+def anyDay : DaySelector := ⟨[], [], [], []⟩
+def rA : Rule := ⟨anyDay, [⟨.fixed 480, .fixed 720, false, none⟩], .open, .normal, ["a", "b"]⟩
+def rB : Rule := ⟨anyDay, [⟨.fixed 840, .fixed 1500, false, none⟩], .unknown, .additional, ["c"]⟩
+def day : Day := dateStart + 45000
+def tA : TimeRange := ⟨480, 720, .open, ["a", "b"]⟩
+def sB : Schedule := [⟨0, 60, .unknown, ["c"]⟩, ⟨840, 1440, .unknown, ["c"]⟩]
+
+theorem evalA : ruleScheduleAt Ctx.default rA day = .ok (some [tA]) := of_isOkSome (by decide +kernel)
+theorem evalB : ruleScheduleAt Ctx.default rB day = .ok (some sB) := of_isOkSome (by decide +kernel)
+theorem evalAB : scheduleAt Ctx.default [rA, rB] day = .ok [⟨0, 60, .unknown, ["c"]⟩, tA, ⟨840, 1440, .unknown, ["c"]⟩] :=
+  of_isOk (by decide +kernel)
+
+theorem sortedAB : SortedComments [rA, rB] := by
+  intro r hr
+  simp only [List.mem_cons, List.not_mem_nil, or_false] at hr
+  rcases hr with rfl | rfl <;> decide
+
+theorem othersApart : ∀ r', r' ∈ ([] : List Rule) ∨ r' ∈ [rB] → ∀ s', ruleScheduleAt Ctx.default r' day = .ok (some s') →
+    ∀ x ∈ s', Apart tA x := by
+  rintro r' (h | h) s' hs'
+  · cases h
+  · rw [List.mem_singleton.mp h, evalB] at hs'
+    cases hs'
+    intro x hx
+    simp only [sB, List.mem_cons, List.not_mem_nil, or_false] at hx
+    rcases hx with rfl | rfl <;> (unfold Apart; decide)
+
+/-- the hypotheses of the backward theorem are met, and it says what the evaluation shows -/
+example : tA ∈ [tA] ∧ tA.comments = rA.comments ∧ tA.kind = rA.kind :=
+  scheduleAt_single_contributor_comments Ctx.default [] [rB] rA day (by decide) evalA othersApart
+    evalAB (by decide)
+
+/-- … and those of the provenance theorem -/
+example : ∀ t ∈ [⟨0, 60, .unknown, ["c"]⟩, tA, ⟨840, 1440, .unknown, ["c"]⟩],
+    Sorted t.comments ∧ ∀ c ∈ t.comments, ∃ r ∈ [rA, rB],
+      (r.day.filter Ctx.default day = .ok true ∨ r.day.filter Ctx.default (day - 1) = .ok true) ∧ c ∈ r.comments :=
+  scheduleAt_comments_applies Ctx.default [rA, rB] day sortedAB evalAB
+
+end Demo
 
 end OH.Proofs.EvalCommentsProv
